@@ -17,10 +17,13 @@ What is proved, for ALL inputs:
    and contextual tuples, and conversely reordering those gives the same bytes;
  * hence every key is injective up to a collision of the 64-bit digest (an explicit hypothesis).
 
-Partial / findings (kept at full strength as `Full…` with a proved negation):
+Partial / notes (kept at full strength as `Full…` with a proved negation):
  * `FullTuplePermInvariant` is FALSE: `TupleKeys.Less` answers `true` on equal sort keys, so two
    contextual tuples with the same (object, relation, user, condition name) but different
-   condition contexts are encoded in input order (candidate finding F24; a miss, never a wrong hit).
+   condition contexts are encoded in input order.  This is NOT a violation of the property: such
+   duplicates are order-sensitive inputs (the combined reader answers from the first one, Check's
+   answer changes with their order), so the two orders are semantically different and must not share
+   a key.  (First recorded as finding F24, withdrawn as a false alarm: DESIGN.md §11.3.)
  * `ReadStartingWithUserKey` gives nil and empty `ObjectIDs` the same key (`rswu_nil_empty_same_key`,
    F7): equal by the key function's own contract and for the SQL stores; the memory store differs.
 -/
@@ -530,7 +533,7 @@ def FullTuplePermInvariant : Prop :=
 def dupA : Tup := ⟨[100], [114], [117], some ⟨[99], [([120], .num 1)]⟩⟩
 def dupB : Tup := ⟨[100], [114], [117], some ⟨[99], [([120], .num 2)]⟩⟩
 
-/-- **Negation witness (candidate finding F24)**: two contextual tuples with the same object,
+/-- **Negation witness (why the partial theorem needs pairwise different sort keys; not a defect, see the header)**: two contextual tuples with the same object,
 relation, user and condition name but different condition contexts are hashed in input order,
 because `TupleKeys.Less` returns `true` for both orders (it is not a strict order). -/
 theorem not_full_tuple_perm_invariant : ¬ FullTuplePermInvariant := by
